@@ -3,7 +3,7 @@
 set -u
 export GOFLAGS=-mod=mod GOPROXY=off GOSUMDB=off GOTOOLCHAIN=local
 N="$1"; K="$2"; WHAT="$3"
-SRC="/tmp/wtout3/$N/r$K"; DST="/verif/neutral/$N-r$K"
+SRC="${NWTOUT:-/tmp/wtout3}/$N/r$K"; DST="/verif/neutral/$N-r$K"
 T="$(mktemp -d /tmp/confirm.XXXXXX)"; trap 'rm -rf "$T"' EXIT
 ( cd /repo && tar --exclude=.git -cf - . ) | ( cd "$T" && tar -xf - )
 ( cd "$T" && patch -p1 -s < "$SRC/patch.diff" ) || { echo "$N-r$K patch does not apply"; exit 1; }
